@@ -9,6 +9,7 @@ import Mercure.Model.Retention
 import Mercure.Model.Sys
 import Mercure.Model.Timed
 import Mercure.Model.Config
+import Mercure.Model.TransportCfg
 import Mercure.Generated.Facts
 import Std.Data.HashMap
 /-
@@ -150,6 +151,20 @@ def showErr : Err → String
 def showEff : Except Err Effective → String
   | .error e => "err:" ++ showErr e
   | .ok e => s!"ok anon={showBool e.anonymous} subs={showBool e.subscriptions} wt={e.wt} dt={e.dt} hb={e.hb} pubAlg={hex e.pubAlg} subAlg={match e.subAlg with | some a => hex a | none => "-"} porigins={hexList e.publishOrigins} corigins={hexList e.corsOrigins} cookie={hex e.cookieName} compat7={showBool e.compat7}"
+def floatArg (s : Option String) : Option TransportCfg.FloatArg :=
+  match s with
+  | none => none
+  | some v => if v == "-" then none else match v.splitOn ":" with
+    | [ok, c] => (unhex c).map (fun c => { valid := ok == "1", canon := c })
+    | _ => none
+def showTErr : TransportCfg.Err → String
+  | .badSize => "badSize" | .badFrequency => "badFrequency" | .missingPath => "missingPath"
+  | .noSuchTransport => "noSuchTransport" | .missingArg => "missingArg"
+def showTEff : Except TransportCfg.Err TransportCfg.Eff → String
+  | .error e => "err:" ++ showTErr e
+  | .ok e => match e.kind with
+    | .local_ => "ok kind=local"
+    | .bolt => s!"ok kind=bolt path={hex e.path} bucket={hex e.bucket} size={e.size} freq={hex e.freq}"
 end CfgWire
 
 def step (st : DSt) (line : String) : DSt × String :=
@@ -225,6 +240,26 @@ def step (st : DSt) (line : String) : DSt × String :=
       cookieName := CfgWire.optStr (m.get? "cookie"), compat := CfgWire.optNat (m.get? "compat"),
       badArgs := m.get? "bad" == some "1" }
     (st, CfgWire.showEff (Config.provisionCaddy c))
+  | "cfg.transport" :: fields =>
+    let m := CfgWire.kv fields
+    let str (k : String) : Str := ((m.get? k).bind unhex).getD []
+    let dir : Option TransportCfg.Directive :=
+      match m.get? "dir" with
+      | some "local" => some .local_
+      | some "bolt" => some (.bolt { path := CfgWire.optStr (m.get? "path"), bucket := CfgWire.optStr (m.get? "bucket"),
+                                     size := CfgWire.optStr (m.get? "size"), freq := CfgWire.floatArg (m.get? "freq") })
+      | _ => none
+    let url : Option TransportCfg.URL :=
+      if m.get? "url" == some "1" then
+        some { scheme := str "scheme", path := str "upath", host := str "host", size := str "usize", freq := str "ufreq",
+               freqArg := (CfgWire.floatArg (m.get? "ufreqarg")).getD ⟨false, []⟩, bucket := str "ubucket" }
+      else none
+    -- what encoding/json makes of a size ≥ 2^53 (reported by the harness; consulted only then)
+    let rt : Nat → Option Nat := fun _ => (m.get? "sizert").bind String.toNat?
+    if m.get? "legacy" == some "1" then
+      (st, CfgWire.showTEff (TransportCfg.provisionLegacyTransport (m.get? "defaults" == some "1") url))
+    else
+    (st, CfgWire.showTEff (TransportCfg.provisionCaddyTransport rt dir url))
   | "cfg.legacy" :: fields =>
     let m := CfgWire.kv fields
     let l : Config.Legacy := {
